@@ -2,6 +2,7 @@ SPECIFICATION TSpec
 INVARIANT ByteCompat
 INVARIANT DecodeEqual
 INVARIANT ObfCompat
+INVARIANT FramesIntact
 INVARIANT NoException
 INVARIANT FedValid
 ALIAS DiagView
